@@ -16,7 +16,7 @@ LEVEL = "exploration"
 
 
 def grid_for(name, tier):
-    g = T.ENTRIES[name]["grid"]
+    g = T.grid(name, tier)
     if tier == "quick":
         # up to 10 grid points spread evenly over the grid, small iteration counts (the real runs enumerate selection trees)
         g = [kw for kw in g if kw.get("n", 1) <= 6]
